@@ -811,8 +811,7 @@ class Prop:
                         return False, "optimize changed the format of tensor %d" % i
                     if x is None:
                         continue
-                    x = np.array(x); y = np.array(y)
-                    if x.shape != y.shape or np.max(np.abs(x - y)) > 1e-9 * max(1.0, np.max(np.abs(y))):
+                    if not close(x, y, 1e-9):          # NaN/inf-safe, shape-safe
                         return False, "after one SGD step node %d of tensor %d differs from theta - lr*dense gradient" % (j, i)
             return True, ""
         # the forward value is the business of C02/C03/C06; a different scalar has a different gradient anyway
@@ -823,10 +822,10 @@ class Prop:
                 return False, "gradient of %s has %d entries, expected %d" % (w, g.size, h.size)
             if not np.all(np.isfinite(g)):
                 return False, "gradient of %s is not finite" % w
-            if h.size and np.max(np.abs(g - h)) > 1e-9 * max(1.0, np.max(np.abs(h))):
+            if not close(g, h, 1e-9):                  # NaN/inf-safe
                 why = " (result detached from its operands)" if res.get("detached") else ""
                 return False, "d loss / d %s differs from the dense gradient by %g (max |expected| %g)%s" % (
-                    w, np.max(np.abs(g - h)), np.max(np.abs(h)), why)
+                    w, np.max(np.abs(g - h)) if h.size else 0.0, np.max(np.abs(h)) if h.size else 0.0, why)
         return True, ""
 
     def nontrivial(self, case, res):
